@@ -168,9 +168,14 @@ def encode(V, accel, slicing, block_depth):
     cl.append(("buffer length covers the last range", L(_slen(wtens.buffer)) >= prev_end))
     # ---- double-buffer sizes bound every slice assigned to that buffer; real create_dma_op / create_weights on a buffered slice
     dbs = wtens.double_buffer_sizes
+    with core.shims((wc, {"max": core.smax, "sum": core.ssum})):
+        largest, both = wtens.max_range_bytes(), wtens.double_buffer_size()  # the REAL methods the scheduler sizes the SRAM buffer(s) by
+    cl.append(("double_buffer_size() is at least the two recorded buffer sizes together", L(both) >= L(dbs[0]) + L(dbs[1])))
     for i, (s0, e0) in enumerate(slice_extent):
         if s0 is None:
             continue
+        cl.append(("max_range_bytes() >= bytes of slice %d (all cores' ranges with their alignment: a single SRAM weight buffer is sized by it and receives every slice)" % i,
+                   L(largest) >= e0 - s0))
         cl.append(("double_buffer_sizes[%d] >= bytes of slice %d" % (i % 2, i), L(dbs[i % 2]) >= e0 - s0))
         base_src = V.int("src_base", 0, 1 << 30)
         base_buf = V.int("buf_base", 0, 1 << 30)
